@@ -1,5 +1,5 @@
 """C01 — only holders of a currently valid token for the topic get onto the relay"""
-from tiecommon import TIE_DENY, TIE_TTLCODE, TIE_NOTE, TIE_ASSUMPTION
+from tiecommon import TIE_DENY, TIE_TTLCODE, TIE_ACCESS, TIE_NOTE, TIE_ASSUMPTION
 from relaycommon import RelayMode
 
 RULE = ("relay mode: the real access API + crossbar on loopback (fresh instance per case, virtual clock). Cases mix session requests "
@@ -17,7 +17,7 @@ THEOREMS = [(f"Access.{n}", P) for n in ["session_ok_iff", "session_refused_no_e
                                          "ws_refused_no_join", "client_bound_to_token", "no_code_no_join", "joined_only_via_valid_session", "valid_iff", "ws_refused_info"]] + \
            [("Relay.member_provenance", "Relay.Props.C01Prov"), ("Relay.code_provenance", "Relay.Props.C01Prov"), ("Relay.prov_run", "Relay.Props.C01Prov"),
             ("Hub.unjoined_never_relays", "Relay.Props.C03"), ("Relay.status_lists_exactly_members", "Relay.Props.C14Members")]
-THEOREMS = THEOREMS + TIE_DENY + TIE_TTLCODE
+THEOREMS = THEOREMS + TIE_DENY + TIE_TTLCODE + TIE_ACCESS
 RULE = TIE_NOTE + RULE
 ASSUMPTIONS = ASSUMPTIONS + [TIE_ASSUMPTION]
 
